@@ -5,8 +5,8 @@ import (
 	"bytes"
 	"encoding/binary"
 	"encoding/json"
-	"errors"
 	"fmt"
+	"net"
 	"sync"
 	"sync/atomic"
 	"testing"
@@ -23,17 +23,21 @@ import (
 func TestMain(m *testing.M) { hx.Main(m, "C10") }
 
 type Case struct {
-	Dotu    bool         `json:"dotu"`
-	Msize   uint32       `json:"msize"`
-	Prelude int          `json:"prelude"` // calls completed before the scripted part
-	Calls   []string     `json:"calls"`   // kinds of the concurrently outstanding calls (0..4)
-	Order   []int        `json:"order"`   // order of their replies in the reply stream
-	Cut     int          `json:"cut"`     // bytes of the reply stream delivered before the failure (-1: all)
-	Chunk   int          `json:"chunk"`   // the delivered part is written in pieces of this many bytes (0: one write)
-	Fail    string       `json:"fail"`    // eof, err, unmount, or a fault frame: size0..size6, oversize-hdr, oversize-data, big31, big32, badtype, unknowntag, duptag
-	After   int          `json:"after"`   // calls made after the failure
+	Dotu    bool     `json:"dotu"`
+	Msize   uint32   `json:"msize"`
+	Prelude int      `json:"prelude"` // calls completed before the scripted part
+	Calls   []string `json:"calls"`   // kinds of the concurrently outstanding calls (0..4)
+	Order   []int    `json:"order"`   // order of their replies in the reply stream
+	Cut     int      `json:"cut"`     // bytes of the reply stream delivered before the failure (-1: all)
+	Chunk   int      `json:"chunk"`   // the delivered part is written in pieces of this many bytes (0: one write)
+	Fail    string   `json:"fail"`    // eof, err, werr, unmount, or a fault frame: size0..size6, oversize-hdr, oversize-data, big31, big32, badtype, unknowntag, duptag
+	// (fail err, werr) the error value that the transport's Read and Write (err)
+	// or its Write alone (werr: met by the request of the late call; reads stay
+	// silent) return from the failure on, every time: see errKinds ("" is "plain")
+	ErrKind string       `json:"errkind,omitempty"`
+	After   int          `json:"after"` // calls made after the failure
 	Holds   []sched.Hold `json:"holds,omitempty"`
-	Late    bool         `json:"late,omitempty"` // one more call is started while the failure is in progress (interleaving table)
+	Late    bool         `json:"late,omitempty"`   // one more call is started while the failure is in progress (interleaving table)
 	Joined  bool         `json:"joined,omitempty"` // a fault frame is written together with the delivered replies: they reach the client in one Read (per piece of Chunk bytes)
 	WBlock  bool         `json:"wblock,omitempty"` // (with Late) the writer goroutine is inside a Write of the late call that the peer does not drain when the failure happens
 	// msize negotiation: the client offers Offer (0: Msize) and the peer grants
@@ -119,6 +123,7 @@ func settle(err error) error {
 		return err
 	}
 	if h.blocked != "" {
+		hungBefore.Store(true)
 		return &hungErr{fmt.Sprintf("%s; goroutines blocked inside go9p:\n%s", h.msg, h.blocked)}
 	}
 	hx.Inconclusive(h.msg)
@@ -141,14 +146,14 @@ func tidyUnmount(clnt *go9p.Clnt) {
 
 // mountConn makes a client by MountConn against the scripted peer, which
 // answers its Tattach.
-func mountConn(p *peer.Peer, offer uint32) (*go9p.Clnt, error) {
+func mountConn(p *peer.Peer, conn net.Conn, offer uint32) (*go9p.Clnt, error) {
 	type mres struct {
 		clnt *go9p.Clnt
 		err  error
 	}
 	mch := make(chan mres, 1)
 	go func() {
-		cl, e := go9p.MountConn(p.Lib, "c10", offer-go9p.IOHDRSZ, go9p.OsUsers.Uid2User(0))
+		cl, e := go9p.MountConn(conn, "c10", offer-go9p.IOHDRSZ, go9p.OsUsers.Uid2User(0))
 		mch <- mres{cl, e}
 	}()
 	rch := make(chan *peer.Req, 1)
@@ -253,7 +258,9 @@ func labelMsize(c *Case, clnt *go9p.Clnt) {
 	}
 }
 
-func isConnFail(kind string) bool { return kind == "eof" || kind == "err" || kind == "unmount" }
+func isConnFail(kind string) bool {
+	return kind == "eof" || kind == "err" || kind == "unmount" || kind == "werr"
+}
 
 func hdr7(sz uint32, typ uint8, tag uint16) []byte {
 	b := make([]byte, 7)
@@ -324,6 +331,9 @@ func run(c *Case) error {
 	if c.Via != "" && !mounted || c.Peer != "" && c.Peer != "answer" && c.Peer != "slow" || mounted && (c.First || offered(c) < 64) {
 		return fmt.Errorf("harness: via %q, peer %q, first %v, offer %d", c.Via, c.Peer, c.First, offered(c))
 	}
+	if c.Fail == "werr" && (!c.Late || c.WBlock || len(c.Holds) > 0) {
+		return fmt.Errorf("harness: a Write failure needs one more call (and no held Write, no holds)")
+	}
 	// (MountConn always asks for 9P2000.u: the peer decides the dialect)
 	p := peer.New("c10", c.Msize, !mounted || c.Dotu)
 	p.Start(false)
@@ -332,11 +342,17 @@ func run(c *Case) error {
 	defer sched.Install(ctl)()
 	var clnt *go9p.Clnt
 	var err error
+	var conn net.Conn = p.Lib
+	var wf *wfailConn
+	if c.Fail == "werr" {
+		wf = &wfailConn{End: p.Lib}
+		conn = wf
+	}
 	if mounted {
-		if clnt, err = mountConn(p, offered(c)); err != nil {
+		if clnt, err = mountConn(p, conn, offered(c)); err != nil {
 			return err
 		}
-	} else if clnt, err = go9p.Connect(p.Lib, offered(c), c.Dotu); err != nil {
+	} else if clnt, err = go9p.Connect(conn, offered(c), c.Dotu); err != nil {
 		return fmt.Errorf("Connect: %v", err)
 	}
 	defer tidyUnmount(clnt)
@@ -427,7 +443,7 @@ func run(c *Case) error {
 	}
 	isFault := false
 	switch c.Fail {
-	case "eof", "err", "unmount":
+	case "eof", "err", "unmount", "werr":
 	default:
 		isFault = true
 		// faults are injected on a frame boundary
@@ -488,11 +504,22 @@ func run(c *Case) error {
 			})
 			defer func() { wrelease.Store(true); p.Lib.SetWriteHook(nil) }()
 		}
+		if wf != nil {
+			// the failure: from now on every Write of the client fails with the
+			// error value; what the peer sent before has been read by the client,
+			// and nothing more will come
+			for i := 0; i < 4000 && p.End.Unread() > 0; i++ {
+				time.Sleep(250 * time.Microsecond)
+			}
+			time.Sleep(2 * time.Millisecond)
+			wf.arm(transportErr(c.ErrKind))
+		}
 		go func() {
 			late = doCall(clnt, "stat", lf, 0)
 			close(lateDone)
 		}()
-		if c.WBlock {
+		if wf != nil {
+		} else if c.WBlock {
 			select {
 			case <-wentered:
 			case <-time.After(2 * time.Second):
@@ -556,8 +583,10 @@ func run(c *Case) error {
 				time.Sleep(250 * time.Microsecond)
 			}
 		}
-		p.End.FailPeer(errors.New("injected transport error"))
+		p.End.FailPeer(transportErr(c.ErrKind))
 		wrelease.Store(true)
+	case "werr":
+		// (armed above, before the late call was started)
 	case "unmount":
 		// only what the client has actually read counts as received
 		for i := 0; i < 4000 && p.End.Unread() > 0; i++ {
@@ -607,6 +636,9 @@ func run(c *Case) error {
 	}
 	if _, ok := await(lateDone); !ok {
 		return hang("a call that entered Rpc while the connection was failing did not return within %v", deadline)
+	}
+	if wf != nil {
+		hx.ExtraAdd("writes_that_met_the_write_failure", wf.failed.Load())
 	}
 	close(released) // (a slow peer now sends what it withheld, into whatever is left of the connection)
 	if late != nil && late.err == nil {
@@ -720,7 +752,7 @@ func runMount(c *Case) error {
 	case "eof":
 		p.End.CloseWrite()
 	case "err":
-		p.End.FailPeer(errors.New("injected transport error"))
+		p.End.FailPeer(transportErr(c.ErrKind))
 	default:
 		var dup *ref9p.Msg
 		victim := req.Msg.Tag
@@ -800,21 +832,38 @@ func peerDoes(c *Case) string {
 
 func replyLen(p *peer.Peer, m *ref9p.Msg) int { return len(p.Encode(peer.Answer(m))) }
 
+// hungBefore: a case of this process ended in a hang inside go9p. What was
+// stuck stays stuck (a receiver that spins keeps a processor busy), so the
+// verdict stands and the cases that would follow are not run any more.
+var hungBefore atomic.Bool
+
 func execute(test string, c *Case) error {
+	if hungBefore.Load() {
+		return nil
+	}
 	hx.Journal(test, c)
 	hx.Eval()
 	switch test {
 	case "entrystorm": // (non-trivial or not is decided by what the rounds reached)
 		hx.Label("entry storm fail=" + c.Fail)
+		if c.Fail == "err" {
+			labelErrKind(c)
+		}
 		hx.Label("entry storm mode=" + c.Mode)
 		hx.Label("entry storm client made by " + madeBy(c))
 	case "storm":
 		hx.Label("storm fail=" + c.Fail)
+		if c.Fail == "err" {
+			labelErrKind(c)
+		}
 		b, _ := json.Marshal(c)
 		hx.NonTrivial(b)
 	default:
 		hx.Label(fmt.Sprintf("fail=%s", c.Fail))
 		hx.Label(fmt.Sprintf("outstanding=%d", len(c.Calls)))
+		if c.Fail == "err" || c.Fail == "werr" {
+			labelErrKind(c)
+		}
 		if c.Via != "" {
 			hx.Label("client made by " + c.Via)
 		}
@@ -939,6 +988,7 @@ func TestEnumCuts(t *testing.T) {
 						continue // unmount waits for the client to drain: slower
 					}
 					c := &Case{Dotu: dotu, Msize: 1024, Prelude: si % 3, Calls: s.calls, Order: s.order, Cut: cut, Chunk: []int{0, 1, 5}[cut%3], Fail: fk, After: 1 + cut%2}
+					rotateErr(c, idx)
 					if err := execute("cuts", c); err != nil {
 						hx.Violation("cuts", c, err.Error())
 						t.Fatalf("%v", err)
@@ -1054,6 +1104,7 @@ func TestEnumMount(t *testing.T) {
 						continue
 					}
 					c := &Case{Via: "mount", Dotu: dotu, Msize: mp[0], Offer: mp[1], Cut: cut, Chunk: []int{0, 1, 5}[cut%3], Fail: fk, After: 1 + cut%2}
+					rotateErr(c, idx)
 					if err := execute("mount", c); err != nil {
 						hx.Violation("mount", c, err.Error())
 						t.Fatalf("%v", err)
@@ -1098,6 +1149,7 @@ func TestEnumMounted(t *testing.T) {
 		if hx.NShards > 1 && idx%hx.NShards != hx.Shard {
 			return
 		}
+		rotateErr(c, idx)
 		if err := execute("mounted", c); err != nil {
 			hx.Violation("mounted", c, err.Error())
 			t.Fatalf("%v", err)
@@ -1162,6 +1214,7 @@ func TestEnumInterleavings(t *testing.T) {
 							// (Unmount with calls outstanding: on a client made by MountConn)
 							c.Via, c.Peer = "mounted", peerModes[idx%3]
 						}
+						rotateErr(c, idx)
 						if err := execute("interleave", c); err != nil {
 							hx.Violation("interleave", c, err.Error())
 							t.Fatalf("%+v: %v", h, err)
@@ -1194,6 +1247,7 @@ func TestEnumBlockedWriter(t *testing.T) {
 					if fk == "eof" || fk == "err" || fk == "unmount" {
 						c.Cut = []int{0, 60}[before] // also in the middle of a reply
 					}
+					rotateErr(c, idx)
 					if err := execute("blockedwriter", c); err != nil {
 						hx.Violation("blockedwriter", c, err.Error())
 						t.Fatalf("%v", err)
@@ -1225,7 +1279,10 @@ func sessionsDraw(t *testing.T, hung *error) {
 		c.Order = rapid.Permutation(seq(n)).Draw(t, "order")
 		c.Cut = rapid.IntRange(-1, 40*n+8).Draw(t, "cut")
 		c.Chunk = rapid.SampledFrom([]int{0, 1, 3, 16}).Draw(t, "chunk")
-		c.Fail = rapid.SampledFrom(append([]string{"eof", "eof", "err", "err", "unmount", "unmount"}, faults...)).Draw(t, "fail")
+		c.Fail = rapid.SampledFrom(append([]string{"eof", "eof", "err", "err", "err", "werr", "unmount", "unmount"}, faults...)).Draw(t, "fail")
+		if c.Fail == "err" || c.Fail == "werr" {
+			c.ErrKind = rapid.SampledFrom(errKinds).Draw(t, "errkind")
+		}
 		c.After = rapid.SampledFrom([]int{1, 1, 2, 20}).Draw(t, "after")
 		c.Joined = rapid.Bool().Draw(t, "joined")
 		if rapid.IntRange(0, 5).Draw(t, "blockedwriter") == 0 {
@@ -1245,11 +1302,14 @@ func sessionsDraw(t *testing.T, hung *error) {
 		// what the peer does with requests it receives from the failure on
 		c.Peer = rapid.SampledFrom([]string{"", "", "answer", "slow"}).Draw(t, "peer")
 		switch via := rapid.IntRange(0, 9).Draw(t, "via"); {
-		case c.Fail != "unmount" && via < 2:
+		case c.Fail != "unmount" && c.Fail != "werr" && via < 2:
 			c.Via, c.Late, c.WBlock, c.Peer = []string{"mount", "early"}[via], false, false, ""
 		case via < 5:
 			// the session runs on a client made by a completed MountConn
 			c.Via, c.First = "mounted", false
+		}
+		if c.Fail == "werr" {
+			c.Late, c.WBlock = true, false
 		}
 		if *hung != nil {
 			return
@@ -1287,11 +1347,15 @@ func TestTagFailure(t *testing.T) {
 		for n := 1; n <= 4; n++ {
 			for cutFrames := 0; cutFrames <= n; cutFrames++ {
 				c := &Case{Dotu: n%2 == 0, Msize: 1024, Fail: fk, Prelude: n, Cut: cutFrames, Calls: []string{"tag"}}
+				rotateErr(c, 5*n+cutFrames)
 				hx.Journal("tagfail", c)
 				hx.Eval()
 				hx.Label("tag-interface fail=" + fk)
 				b, _ := json.Marshal(c)
 				hx.NonTrivial(b)
+				if hungBefore.Load() {
+					return
+				}
 				err := settle(runTagFailure(c, n, cutFrames))
 				if err != nil {
 					hx.Violation("tagfail", c, err.Error())
@@ -1345,7 +1409,7 @@ func runTagFailure(c *Case, n, answered int) error {
 	case "eof":
 		p.End.CloseWrite()
 	case "err":
-		p.End.FailPeer(errors.New("injected transport error"))
+		p.End.FailPeer(transportErr(c.ErrKind))
 	default:
 		for i := 0; i < 4000 && p.End.Unread() > 0; i++ {
 			time.Sleep(250 * time.Microsecond)
@@ -1383,6 +1447,9 @@ func TestStaleReplyInFlight(t *testing.T) {
 			hx.Label("stale reply for a request in the send queue")
 			b, _ := json.Marshal(c)
 			hx.NonTrivial(b, rep)
+			if hungBefore.Load() {
+				return
+			}
 			err := settle(runStaleInFlight(c))
 			if err != nil {
 				hx.Violation("staleinflight", c, err.Error())
@@ -1472,6 +1539,7 @@ func TestFailureStorm(t *testing.T) {
 			continue
 		}
 		c := &Case{Dotu: r%2 == 0, Msize: 512, Fail: []string{"eof", "err", "unmount", "badtype", "unknowntag"}[r%5], Calls: []string{"storm"}, After: 8, Cut: r}
+		rotateErr(c, r/5)
 		if err := execute("storm", c); err != nil {
 			hx.Violation("storm", c, err.Error())
 			t.Fatalf("%v", err)
@@ -1535,7 +1603,7 @@ func runStorm(c *Case) error {
 	case "eof":
 		p.End.CloseWrite()
 	case "err":
-		p.End.FailPeer(errors.New("injected transport error"))
+		p.End.FailPeer(transportErr(c.ErrKind))
 	case "unmount":
 		clnt.Unmount()
 	case "badtype":
